@@ -98,7 +98,15 @@ let run_case id toks =
       st := s1;
       (if ok then "O" else "E") ^ String.sub (Digest.to_hex (Digest.string (listing s1.st_fs))) 0 8)
       (List.rev !ops) in
-  Printf.printf "%s %s|%s\n" id (String.concat "" steps) (listing !st.st_fs)
+  (* the store's book-keeping: Exists for every (title, content) that was pushed or named as a layer,
+     and for every unpack title with content 41 *)
+  let queries = List.concat_map (fun o -> match o with
+      | PBlob (t, c) -> [(t, c)]
+      | PManifest ls -> ls
+      | PDir (t, _, _) -> [(t, n_of_int 41)]
+      | PDirF (_, t, _, _) -> [(t, n_of_int 41)]) (List.rev !ops) in
+  let ex = String.concat "" (List.map (fun (t, c) -> if exists_obs !st t c then "1" else "0") queries) in
+  Printf.printf "%s %s|%s|X%s\n" id (String.concat "" steps) (listing !st.st_fs) ex
 
 let () =
   iter_lines (fun l ->
